@@ -13,7 +13,7 @@ CLAIMED = {
          "Trusted: the reference model in harness/src/model/vm.rs (DESIGN Appendix A), std Display and `as` int->float. Double faults and Power with exponent > u32::MAX accept two outcomes.",
          "DESIGN.md §2 C01, Appendix A"),
  "C02": (PBT + ": model-free before/after state equality on every failing instruction, exhaustive enumeration of stack shapes per instruction, L vs L+1 step-limit metamorphic relation on the real interpreter loop, failing steps inside generated and stack-churn programs compared step by step",
-         "Exploration with an exhaustive component: for every instruction all 4096 stack shapes (sizes 0..3 x slack 0/1 per stack) are enumerated (values random), plus generated boundary states and programs. Does not establish absence for values.",
+         "Exploration with an exhaustive component: for every instruction all 4096 stack shapes (sizes 0..3 x slack 0/1 per stack) are enumerated (values random), and all sizes again with the maximum of one stack (or of all four) lowered by 1 or 2 below the number of elements it holds (over-full destinations), plus generated boundary states and programs. Does not establish absence for values.",
          "Trusted: PushState's Eq (all stacks, inputs, output cursor, limits) plus bitwise float comparison.",
          "DESIGN.md §2 C02"),
  "C03": (PBT + ": growth/looping/nesting/blow-up program templates under tiny stack limits and large step limits, differential reference model plus invariants (no panic, sizes <= maxima, only overflow aborts, exactly min(limit, steps-to-halt) steps), watchdog for hangs",
